@@ -99,6 +99,3 @@ func ReplayCmd(argv []string) int {
 	return 0
 }
 
-func replayGen(rf *ReplayFile, modelPath, tmp string) (string, string) {
-	return "error", "gen replay not implemented"
-}
